@@ -693,7 +693,7 @@ def driver_text(tu_rel, cands):
             np_repr = np
         out.append('static void tvd_cxx_%d(const tvd_val *a, char *out) { %s tvd_repr(out, a, %d, %s); }\n' % (k, ' '.join(pre), np_repr, call_cxx))
         out.append('static void tvd_c_%d(const tvd_val *a, char *out) { %s tvd_repr(out, a, %d, %s); }\n' % (k, ' '.join(pre), np_repr, call_c))
-        same = '(int)tvd_same<__typeof__(%s), __typeof__(&tv_%s)>::v' % (real, c.cname) if c.static else '-1'
+        same = '(int)tvd_same<__typeof__(%s), __typeof__(&tv_%s)>::v' % (real, c.cname) if (c.static and not any(p['kind'] == 'sstr' for p in c.params)) else '-1'      # R4 turns references into pointers on purpose
         table.append('  {"%s", %d, {%s}, tvd_cxx_%d, tvd_c_%d, %s}' % (c.cname, np, ', '.join(pds), k, k, same))
     out.append('static const tvd_fn tvd_fns[] = {\n' + ',\n'.join(table) + '\n};\n')
     out.append(DRIVER_MAIN)
